@@ -185,6 +185,13 @@ class Program:
             native = importlib.util.module_from_spec(spec)
             spec.loader.exec_module(native)
             self._load(name, path, native)
+        # loops of every function in source order: (qualname, lineno, col) -> ordinal
+        self.loop_ordinal = {}
+        for q, fi in self.funcs.items():
+            loops = [n for n in ast.walk(fi.node) if isinstance(n, (ast.For, ast.While))]
+            loops.sort(key=lambda n: (n.lineno, n.col_offset))
+            for k, n in enumerate(loops):
+                self.loop_ordinal[(q, n.lineno, n.col_offset)] = k
         self.enum_native = {}
         for cname, ci in self.classes.items():
             ncls = getattr(ci.module.native, cname, None)
@@ -531,7 +538,9 @@ class Interp:
     def x_While(self, node, fr):
         cut = fr.loop_cut(node)
         if cut is not None:
-            return cut(self, node, fr)
+            r = cut(self, node, fr)
+            if r is not NotImplemented:
+                return r
         while self.truth(self.eval(node.test, fr)):
             try:
                 self.exec_block(node.body, fr)
@@ -544,7 +553,9 @@ class Interp:
     def x_For(self, node, fr):
         cut = fr.loop_cut(node)
         if cut is not None:
-            return cut(self, node, fr)
+            r = cut(self, node, fr)
+            if r is not NotImplemented:
+                return r
         it = self.eval(node.iter, fr)
         for item in self.iterate(it):
             self.assign(node.target, item, fr)
@@ -1186,7 +1197,8 @@ class Frame:
         cuts = getattr(self.interp, 'loop_cuts', None)
         if not cuts:
             return None
-        return cuts.get((self.func.qualname, node.lineno))
+        k = self.interp.p.loop_ordinal.get((self.func.qualname, node.lineno, node.col_offset))
+        return cuts.get((self.func.qualname, k))
 
     def lookup(self, name):
         env = self.env
